@@ -37,7 +37,7 @@ def algo_slack(spec, alg, W):
     return np.full(W.shape[1], float(eps))  # eps-PAL: eps in every objective
 
 
-def step_expectation(spec, alg, ctx, before, after_regions, covering_enabled=True):
+def step_expectation(spec, alg, ctx, before, after_regions, covering_enabled=True, code_pdom=False):
     algo = spec["algo"]
     W = np.asarray(ctx.order.ordering_cone.W, float) if algo != "Auer" else np.eye(len(after_regions[0][0]))
     if algo == "Auer":
@@ -46,7 +46,7 @@ def step_expectation(spec, alg, ctx, before, after_regions, covering_enabled=Tru
     slack = algo_slack(spec, alg, W)
     if algo in ("PaVeBa", "PaVeBaGP", "PaVeBaPartialGP"):
         return ref.ref_paveba(before["S"], before["P"], before["U"], pr, slack), pr
-    exact = W.shape == (2, 2) or algo == "EpsilonPAL"
+    exact = (W.shape == (2, 2) or algo == "EpsilonPAL") and not code_pdom
     return ref.ref_vogp(before["S"], before["P"], pr, slack, order=ctx.order, exact_pdom=exact, covering_enabled=covering_enabled), pr
 
 
@@ -171,17 +171,54 @@ def _inject(alg, ctx, spec, case):
         alg.U = set(i % K for i in case["U"]) & P
 
 
+def _inject_ad(alg, ctx, spec, case):
+    """VOGP_AD: refine a few nodes, then place regions / S / P on the leaves."""
+    from vopy.confidence_region import RectangularConfidenceRegion
+
+    ds = alg.design_space
+    md = spec["problem"]["depth_max"]
+    m = spec["problem"]["m"]
+    refined = set()
+    for k in case["refine"]:
+        cand = [i for i in range(len(ds.points)) if i not in refined and ds.point_depths[i] < md]
+        if not cand:
+            break
+        parent = cand[k % len(cand)]
+        ds.refine_design(parent)
+        refined.add(parent)
+    leaves = [i for i in range(len(ds.points)) if i not in refined]
+    regs = case["regions"]
+    for r, i in enumerate(leaves):
+        spec_r = regs[r % len(regs)]
+        ds.confidence_regions[i] = RectangularConfidenceRegion(m, np.array(spec_r["lo"], float), np.array(spec_r["hi"], float))
+    S = {leaves[k % len(leaves)] for k in case["S"]}
+    P = {leaves[k % len(leaves)] for k in case["P"]} - S
+    P = {p for p in P if ds.point_depths[p] == md}  # only finest leaves can have been declared
+    alg.S, alg.P = set(S), set(P)
+    return all(ds.point_depths[i] == md for i in S)
+
+
 def check_single_step(case, part="discard"):
     spec = case["spec"]
     algo = spec["algo"]
     labels = ["algo=" + algo, "conf=" + ha.conf_type(spec), "single-step"]
     alg, ctx = ha.build(spec)
-    _inject(alg, ctx, spec, case)
+    all_max = True
+    if algo == "VOGP_AD":
+        all_max = _inject_ad(alg, ctx, spec, case)
+    else:
+        _inject(alg, ctx, spec, case)
     b = ha.snapshot(alg, ctx)
     regs = b["regions"]
-    exp, pr = step_expectation(spec, alg, ctx, b, regs)
+    # single steps include exact ties (identical regions): the pessimistic set is taken from the code's own
+    # pairwise comparison there (exact for ties; C11 vouches for the comparison itself)
+    exp, pr = step_expectation(spec, alg, ctx, b, regs, code_pdom=algo in ("VOGP", "VOGP_AD", "EpsilonPAL"))
     alg.discarding()
-    if algo in ("VOGP", "EpsilonPAL"):
+    if algo == "VOGP_AD":
+        if exp["D"] is not None and not all(alg.design_space.point_depths[i] == alg.max_discretization_depth for i in (b["S"] - exp["D"])):
+            exp = dict(exp, N=set())
+        alg.epsiloncovering()
+    elif algo in ("VOGP", "EpsilonPAL"):
         alg.epsiloncovering()
     else:
         alg.pareto_updating()
@@ -256,6 +293,39 @@ def st_single(draw, algos):
             "U": draw(st.lists(ints, max_size=4))}
 
 
+@st.composite
+def st_single_ad(draw):
+    from vverif.props.C06 import st_spec_ad
+
+    spec = draw(st_spec_ad().filter(lambda s: s["problem"]["d"] >= s["problem"]["m"]))
+    spec["problem"]["depth_max"] = draw(st.sampled_from([2, 3]))
+    m = spec["problem"]["m"]
+    eps = spec["eps"]
+    W = gen_runs.cone_matrix(spec["cone"])
+    u = gr.interior_dir(W)
+    regs = []
+    scale = eps * draw(st.sampled_from([0.3, 1.0, 3.0]))
+    for i in range(draw(st.integers(2, 8))):
+        mode = draw(st.sampled_from(["free", "free", "copy", "copy", "along-cone", "same-lower"])) if regs else "free"
+        if mode == "free":
+            r = draw(gr.st_rect(m, scale))
+        else:
+            base = regs[draw(st.integers(0, len(regs) - 1))]
+            lo, hi = np.array(base["lo"]), np.array(base["hi"])
+            if mode == "copy":
+                r = {"lo": lo.tolist(), "hi": hi.tolist()}
+            elif mode == "along-cone":
+                sh = u * draw(st.sampled_from([-1, 1])) * eps * draw(st.sampled_from([0.5, 0.99, 1.01, 2.0, 5.0]))
+                r = {"lo": (lo + sh).tolist(), "hi": (hi + sh).tolist()}
+            else:
+                w = np.array([draw(st.floats(0.1, 2.0)) for _ in range(m)]) * scale
+                r = {"lo": lo.tolist(), "hi": (lo + w).tolist()}
+        regs.append(r)
+    ints = st.integers(0, 30)
+    return {"spec": spec, "refine": draw(st.lists(ints, min_size=1, max_size=3)), "regions": regs,
+            "S": draw(st.lists(ints, min_size=1, max_size=6)), "P": draw(st.lists(ints, max_size=4)), "U": []}
+
+
 ELIM = ["PaVeBa", "PaVeBaGP", "PaVeBaPartialGP", "VOGP", "EpsilonPAL", "Auer"]
 
 
@@ -281,6 +351,8 @@ COMPONENTS = [
               rule="whole runs (<=40 steps) of the six dataset-based eliminating algorithms, stub / real / fast posteriors"),
     Component("single_step_injected", lambda c: check_single_step(c, "discard"), strategy=lambda: st_single(ELIM), quick=400, thorough=12000,
               rule="regions and S/P/U injected directly: copies, shifts by 0.5..5 eps along the cone, touching, free"),
+    Component("single_step_injected_vogp_ad", lambda c: check_single_step(c, "discard"), strategy=st_single_ad, quick=150, thorough=5000,
+              rule="VOGP_AD: refined leaves with injected regions incl. identical ones (ties), S/P subsets, discarding() + epsiloncovering()"),
     Component("run_steps_vogp_ad", lambda s: check_run(s, "discard"), strategy=_ad_strategy, quick=16, thorough=400,
               rule="VOGP_AD runs on continuous problems (discards modulo refinement)"),
 ]
